@@ -16,6 +16,7 @@ package c37
 import (
 	"bufio"
 	"bytes"
+	"context"
 	"fmt"
 	"io"
 	"log"
@@ -36,6 +37,13 @@ import (
 )
 
 var quiet = log.New(io.Discard, "", 0)
+
+// loopbackResolver resolves every name to loopback (two entries, so rotation is exercised).
+type loopbackResolver struct{}
+
+func (loopbackResolver) LookupIPAddr(ctx context.Context, host string) ([]net.IPAddr, error) {
+	return []net.IPAddr{{IP: net.IPv4(127, 0, 0, 1)}, {IP: net.IPv4(127, 0, 0, 1)}}, nil
+}
 
 type dialTimeout struct{}
 
@@ -129,9 +137,12 @@ func round(r *mon.Run, idx int, dir string) {
 		}
 		return c, nil
 	}
-	dialer := &fasthttp.TCPDialer{Concurrency: 4}
+	// DNS cache entries expire every 2 ms and are refreshed through a custom resolver, so the
+	// "refresh an expired entry while other goroutines dial the same host" path runs constantly.
+	dialer := &fasthttp.TCPDialer{Concurrency: 4, DNSCacheDuration: 2 * time.Millisecond, Resolver: loopbackResolver{}}
 	client := &fasthttp.Client{Dial: memDial, MaxConnsPerHost: 6, MaxIdleConnDuration: 30 * time.Millisecond, MaxConnWaitTimeout: 50 * time.Millisecond}
-	hcTCP := &fasthttp.HostClient{Addr: addr, Dial: dialer.Dial, MaxConns: 4, MaxConnWaitTimeout: 100 * time.Millisecond, MaxIdleConnDuration: 20 * time.Millisecond}
+	_, port, _ := net.SplitHostPort(addr)
+	hcTCP := &fasthttp.HostClient{Addr: "c37-multi.test:" + port, Dial: dialer.Dial, MaxConns: 4, MaxConnWaitTimeout: 100 * time.Millisecond, MaxIdleConnDuration: 20 * time.Millisecond}
 	hcMem := &fasthttp.HostClient{Addr: "mem", Dial: memDial, MaxConns: 3}
 	hcMem2 := &fasthttp.HostClient{Addr: "mem2", Dial: memDial, MaxConns: 3, MaxConnWaitTimeout: 20 * time.Millisecond}
 	hcMem3 := &fasthttp.HostClient{Addr: "mem3", Dial: memDial, MaxConns: 2}
@@ -205,6 +216,21 @@ func round(r *mon.Run, idx int, dir string) {
 				}
 			}
 		}(w)
+	}
+	// direct TCPDialer use from several goroutines (same host, expiring DNS cache entry)
+	for d := 0; d < 4; d++ {
+		wg.Add(1)
+		go func() {
+			defer wg.Done()
+			for i := 0; i < ops/2; i++ {
+				c, err := dialer.DialTimeout("c37-multi.test:"+port, 200*time.Millisecond)
+				cnt.api("TCPDialer.DialTimeout")
+				if err == nil {
+					c.Close()
+				}
+				time.Sleep(time.Millisecond)
+			}
+		}()
 	}
 	// administrative operations during traffic
 	var adminWG sync.WaitGroup
